@@ -232,6 +232,9 @@ func callVsym(fr *frame, fn *ssa.Function, args []value) value {
 		c.trace = append(c.trace, "")
 		c.obs = append(c.obs, ov)
 		return nil
+	case "VsClassSet": // replaces the class (for per-step classification in histories)
+		c.class = argStr(args[0])
+		return nil
 	case "VsClass":
 		cl := argStr(args[0])
 		for _, have := range strings.Split(c.class, ",") {
